@@ -460,10 +460,39 @@ def r53(ctx, rep):
                      'an exhausted run is not removed from %s: the merge keeps selecting from a run that has ended'
                      % sorted(l for l in lists if l not in removals), sl.node)
     hq = ctx.project.need_fn('petl.transform.sorts:_heapqmergesorted')
-    keyed = [n for n in ast.walk(hq.node) if isinstance(n, ast.Call) and norm(n.func) == '_Keyed']
     kp = hq.posparams[0] if hq.posparams else 'key'
-    good = bool(keyed) and all(len(k.args) == 2 and isinstance(k.args[0], ast.Call) and norm(k.args[0].func) == kp and
-                               len(k.args[0].args) == 1 and norm(k.args[0].args[0]) == norm(k.args[1]) for k in keyed)
+    # the decoration may sit in a private helper generator that is handed the key function: follow the parameter
+    keyed = [(n, kp) for n in ast.walk(hq.node) if isinstance(n, ast.Call) and norm(n.func) == '_Keyed']
+    allfns = dict(getattr(hq.module, 'inlined_away', {}))
+    allfns.update(hq.module.functions)
+    for c in ast.walk(hq.node):
+        if isinstance(c, ast.Call) and isinstance(c.func, ast.Name) and c.func.id in allfns and c.func.id != hq.name:
+            g = allfns[c.func.id]
+            gk = None
+            for i, a in enumerate(c.args):
+                if norm(a) == kp and i < len(g.posparams):
+                    gk = g.posparams[i]
+            for k in c.keywords:
+                if k.arg and norm(k.value) == kp:
+                    gk = k.arg
+            if gk is not None:
+                keyed.extend((n, gk) for n in ast.walk(g.node) if isinstance(n, ast.Call) and norm(n.func) == '_Keyed')
+    kcls = hq.module.classes.get('_Keyed')
+    kinit = ctx.res.lookup_method(kcls, '__init__') if kcls is not None else None
+    kparams = [q for q in (kinit.posparams if kinit is not None else ['self', 'key', 'obj']) if q != 'self'][:2]
+
+    def _keyed_ok(call, keyname):
+        bound = dict(zip(kparams, call.args))
+        for k in call.keywords:
+            if k.arg:
+                bound[k.arg] = k.value
+        if len(kparams) < 2 or set(bound) != set(kparams):
+            return False
+        ka, oa = bound[kparams[0]], bound[kparams[1]]
+        return isinstance(ka, ast.Call) and norm(ka.func) == keyname and len(ka.args) == 1 and not ka.keywords and \
+            norm(ka.args[0]) == norm(oa)
+    good = bool(keyed) and all(_keyed_ok(k, kn) for k, kn in keyed)
+    keyed = [k for k, kn in keyed]
     if good:
         rep.held('R5.3', hq, '_Keyed(key(obj), obj)', 'heap items compare by key only (with C04 R4.2)', keyed[0])
     else:
